@@ -108,10 +108,10 @@ def gen_source(rng: random.Random):
         if SRC_KIND[c] == 4:
             nxt = {}
             for n_, t, d, run, v in st["dsets"]:
-                if SRC_TYPE[t] == 1 and rng.random() < 0.8:
+                if SRC_TYPE[t] == 1 and rng.random() < 0.8 and nxt.get((t, d), 0) < 90:
                     b = nxt.get((t, d), rng.randrange(0, 3))
-                    e = b + rng.randrange(1, 4)
-                    nxt[(t, d)] = e + rng.randrange(0, 2)
+                    e = 90 if rng.random() < 0.2 else b + rng.randrange(1, 4)      # 90 = unbounded end
+                    nxt[(t, d)] = e + rng.randrange(0, 2)                          # adjacent half of the time
                     st["calibs"].append([c, n_, b, e])
     return normalize(st, pay)
 
@@ -232,6 +232,24 @@ def gen_actions(rng: random.Random, src):
             r = rng.random()
             cs = list(cs_all) if r < 0.4 else rng.sample(cs_all, rng.randrange(0, len(cs_all) + 1))
             a = ["ExIm", sorted(ids), sorted(cs), rng.choice(IMPORT_MODES)]
+            r2 = random.Random(rng.randrange(1 << 30))     # separate stream: the choices below do not shift the main one
+            if r2.random() < 0.6:
+                # which association-carrying collections are exported: only CALIBRATION / only TAGGED / both / neither
+                # (runs always allowed; chains left to the unconstrained branch above)
+                ckind = {c: k for c, k, _ in src["colls"]}
+                cat = r2.choice(["calib", "tagged", "both", "neither"])
+                tagged = [c for c in cs_all if ckind[c] == 2]
+                calib = [c for c in cs_all if ckind[c] == 4]
+                pick = [c for c in cs_all if ckind[c] == 1 and r2.random() < 0.4]
+                if cat in ("calib", "both"):
+                    pick += calib
+                if cat in ("tagged", "both"):
+                    pick += r2.sample(tagged, r2.randrange(1, len(tagged) + 1)) if tagged else []
+                a[2] = sorted(set(pick))
+                if cat != "neither" and len(ids) < len(pool):
+                    a[1] = sorted(pool)                      # make sure the associations have their datasets
+            if r2.random() < 0.5 and a[1]:
+                a.append(r2.sample(a[1], len(a[1])))         # saveDatasets order = order of the dataset types in the context
         else:
             a = ["Xfer", sorted(ids), rng.choice(XFER_MODES), int(rng.random() < 0.75), int(rng.random() < 0.75)]
         acts.append(a)
@@ -676,6 +694,11 @@ def process(ctx, cases, origins, results):
         ctx.count(len(res["steps"]) * 9)
         for a, s in zip(case["actions"], res["steps"]):
             ctx.hist("action", a[0] + ":" + (a[3] if a[0] == "ExIm" else a[2]))
+            if a[0] == "ExIm":
+                kk = {c: k for c, k, _ in case["src"]["colls"]}
+                ks = {kk.get(c) for c in a[2]}
+                ctx.hist("exported_assoc_collections", ("both" if {2, 4} <= ks else "calib" if 4 in ks else "tagged" if 2 in ks else "neither")
+                         + ("+order" if len(a) > 4 else ""))
             ctx.hist("outcome", s["out"])
         ctx.hist("target", case.get("label", "corpus"))
         oracle(ctx, case, res, org)
